@@ -62,7 +62,11 @@ VARIABLES prog,     \* sequence of [ind, body]
 vars == <<prog, layout, nrw, phase>>
 
 Units == {"\t", "  ", "    ", "        "}
-Canon == [unit |-> "\t", blank |-> {}, cline |-> {}, tcomment |-> {}, trail |-> {}, tight |-> FALSE, contind |-> 1, bslash |-> {}]
+Canon == [unit |-> "\t", blank |-> {}, cline |-> {}, tcomment |-> {}, trail |-> {}, tight |-> FALSE, contind |-> 1, bslash |-> {},
+          blankfill |-> "", cind |-> " ", eol |-> "\n", final |-> TRUE]
+\* what a blank line may carry, where a comment line may start (neither is a multiple of any indent unit in general)
+Fills == {"   ", "\t\t\t"}
+CommentIndents == {"", "\t\t\t", "          "}
 
 Init == prog = <<>> /\ layout = Canon /\ nrw = 0 /\ phase = "build"
 
@@ -88,6 +92,10 @@ Rewrite(f, v) ==
                  [] f = "tight" -> [layout EXCEPT !.tight = ~@]
                  [] f = "contind" -> [layout EXCEPT !.contind = v]
                  [] f = "bslash" -> [layout EXCEPT !.bslash = Toggle(@, v)]
+                 [] f = "blankfill" -> [layout EXCEPT !.blankfill = v]
+                 [] f = "cind" -> [layout EXCEPT !.cind = v]
+                 [] f = "eol" -> [layout EXCEPT !.eol = v]
+                 [] f = "final" -> [layout EXCEPT !.final = ~@]
   /\ layout' # layout
   /\ UNCHANGED <<prog, phase>>
 
@@ -100,6 +108,11 @@ Next ==
      \* tranp's lexer does not accept it at all (a backslash outside a string has no token domain)
   \/ Rewrite("tight", 0)
   \/ \E k \in {0, 3} : Rewrite("contind", k)
+  \* blanks on blank lines and the indentation of comment lines only show when there is such a line
+  \/ layout.blank # {} /\ \E w \in Fills : Rewrite("blankfill", w)
+  \/ layout.cline # {} /\ \E w \in CommentIndents : Rewrite("cind", w)
+  \/ Rewrite("eol", "\r\n")
+  \/ Rewrite("final", 0)
 
 -----------------------------------------------------------------------------
 (* Sig: the significant token sequence - a function of the program alone *)
@@ -146,17 +159,19 @@ JoinLex(xs, i, tight) ==
 
 LineText(l, i, lay) ==
   LET b == Bodies[l.body]
-      pre == (IF i \in lay.blank THEN "\n" ELSE "")
-             \o (IF i \in lay.cline THEN " # note " \o ToString(i) \o "\n" ELSE "")
+      pre == (IF i \in lay.blank THEN lay.blankfill \o lay.eol ELSE "")
+             \o (IF i \in lay.cline THEN lay.cind \o "# note " \o ToString(i) \o lay.eol ELSE "")
       first == IF i \in lay.bslash /\ b.rest = <<>> /\ Len(b.lex) > 2 /\ b.lex[1][1] = "name" /\ b.lex[2][3] = "b" /\ b.lex[2][2] \notin {"-="}
                THEN b.lex[1][2] \o " \\\n  " \o JoinLex(Tail(b.lex), 1, lay.tight)
                ELSE JoinLex(b.lex, 1, lay.tight)
-      second == IF b.rest = <<>> THEN "" ELSE "\n" \o Indent(lay.contind, "  ") \o JoinLex(b.rest, 1, lay.tight)
+      second == IF b.rest = <<>> THEN "" ELSE lay.eol \o Indent(lay.contind, "  ") \o JoinLex(b.rest, 1, lay.tight)
       post == (IF i \in lay.tcomment THEN "  # c" \o ToString(i) ELSE "") \o (IF i \in lay.trail THEN "  " ELSE "")
-  IN pre \o Indent(l.ind, lay.unit) \o first \o second \o post \o "\n"
+  IN pre \o Indent(l.ind, lay.unit) \o first \o second \o post
 
 RECURSIVE TextFrom(_, _, _)
-TextFrom(p, i, lay) == IF i > Len(p) THEN "" ELSE LineText(p[i], i, lay) \o TextFrom(p, i + 1, lay)
+\* every line ends in the line break of the layout; the last one only if the layout says so
+TextFrom(p, i, lay) == IF i > Len(p) THEN ""
+                       ELSE LineText(p[i], i, lay) \o (IF i < Len(p) \/ lay.final THEN lay.eol ELSE "") \o TextFrom(p, i + 1, lay)
 Text(p, lay) == TextFrom(p, 1, lay)
 
 -----------------------------------------------------------------------------
@@ -167,6 +182,6 @@ LayoutInsensitive == [][phase = "layout" /\ layout' # layout => Sig(prog') = Sig
 \* Python's rule, as an invariant of the generator: deeper exactly after a block opener
 ValidIndent == \A i \in 2..Len(prog) : IF KindOf(prog[i - 1]) = "block" THEN prog[i].ind = prog[i - 1].ind + 1 ELSE prog[i].ind <= prog[i - 1].ind
 
-Case == [text |-> Text(prog, layout), sig |-> Sig(prog), nlines |-> Len(prog), layout |-> [unit |-> layout.unit, tight |-> layout.tight, n |-> nrw]]
+Case == [text |-> Text(prog, layout), sig |-> Sig(prog), nlines |-> Len(prog), layout |-> [unit |-> layout.unit, tight |-> layout.tight, n |-> nrw, crlf |-> layout.eol # "\n", final |-> layout.final]]
 EmitCase == phase = "layout" => PrintT("CASE " \o ToJson(Case))
 =============================================================================
